@@ -299,3 +299,15 @@ func init() {
 	regPrefix("(*github.com/fiorix/go-diameter/diam/sm.StateMachine).", "sm.StateMachine methods: no effect on modelled state", pureOpaque)
 	regPrefix("github.com/fiorix/go-diameter/diam/sm.", "sm package functions: opaque", pureOpaque)
 }
+
+func init() {
+	// server start-up of the rating and account-balance functions (pkg/rf, pkg/abmf)
+	regExtern("(*github.com/fiorix/go-diameter/diam/dict.Parser).Load", "dict.Parser.Load: any error result (the dictionaries themselves are the subject of the avp obligations)", pureOpaque)
+	regExtern("github.com/fiorix/go-diameter/diam.ListenAndServeTLS", "diam.ListenAndServeTLS: serves until it fails; any error result", pureOpaque)
+	regExtern("github.com/fiorix/go-diameter/diam.ListenAndServe", "diam.ListenAndServe: serves until it fails; any error result", pureOpaque)
+	regExtern("github.com/fiorix/go-diameter/diam/sm.New", "sm.New(settings): a new non-nil state machine", func(ex *Exec, fr *Frame, st *State, pc *Term, fn *ssa.Function, args []Value, pos token.Pos) (Value, *Term) {
+		p := ex.alloc(st, pc)
+		return VPtr{T: p}, pc
+	})
+	externWrites["github.com/fiorix/go-diameter/diam/sm.New"] = []string{"next"}
+}
